@@ -15,6 +15,10 @@ from ..common import VERIF, Report, ncpu, seed
 PROP = "C13"
 
 QUERIES = ("unparse", "check_safety", "trace", "summaries", "dumps", "reparse")
+# finer-grained read-only queries: each summary accessor on its own (an accessor may answer differently
+# depending on which cache another accessor has already filled)
+FINE = ("unparse", "check_safety", "trace", "has_import", "has_call", "has_non_setstate_call", "unsafe_imports",
+        "non_standard_imports", "properties", "dumps", "reparse")
 
 
 def ask(p, q):
@@ -37,6 +41,20 @@ def ask(p, q):
                 tuple(ast.unparse(n) for n in p.unsafe_imports()),
                 tuple(ast.unparse(n) for n in p.non_standard_imports()),
                 tuple(sorted(pr.likely_safe_imports)), len(pr.imports), len(pr.calls)), p
+    if q == "has_import":
+        return p.has_import, p
+    if q == "has_call":
+        return p.has_call, p
+    if q == "has_non_setstate_call":
+        return p.has_non_setstate_call, p
+    if q == "unsafe_imports":
+        return tuple(ast.unparse(n) for n in p.unsafe_imports()), p
+    if q == "non_standard_imports":
+        return tuple(ast.unparse(n) for n in p.non_standard_imports()), p
+    if q == "properties":
+        pr = p.properties
+        return (tuple(ast.unparse(n) for n in pr.imports), len(pr.calls), len(pr.non_setstate_calls),
+                tuple(sorted(pr.likely_safe_imports))), p
     if q == "dumps":
         return p.dumps(), p
     if q == "reparse":
@@ -57,7 +75,7 @@ def baseline(data):
     import fickling.fickle as fk
 
     base = {}
-    for q in QUERIES:
+    for q in sorted(set(QUERIES) | set(FINE)):
         if q == "reparse":
             continue
         try:
@@ -89,8 +107,11 @@ def repeat_oracle(term, out):
         return
     out.stats.inc("programs_queried")
     out.outcomes.add(("answers", hash((base["unparse"][1], base["check_safety"][1])) & 0xFFFF))
-    for seqq in itertools.product(QUERIES, repeat=L):
-        # sequences ending in 'reparse' or with two adjacent reparses add nothing new
+    seqs = [s for s in itertools.product(QUERIES, repeat=L)]
+    if term.cfg.opts.get("fine"):
+        seqs += [s for s in itertools.product(FINE, repeat=2)]
+    for seqq in seqs:
+        # sequences ending in 'reparse' add nothing new
         if seqq[-1] == "reparse":
             continue
         p = fk.Pickled.load(data)
@@ -135,6 +156,24 @@ def _stable(v):
     return v
 
 
+def macros():
+    from ..asm import S, sbu
+
+    call = [("GLOBAL", ("os", "system")), "MARK", ("UNICODE", "id"), "TUPLE", "REDUCE"]
+    return [
+        S("macro:call-pop", *call, "POP"),
+        S("macro:call-keep", *call),
+        S("macro:call2-pop", ("GLOBAL", ("subprocess", "call")), sbu("ls"), "TUPLE1", "REDUCE", "POP"),
+        S("macro:obj-pop", "MARK", ("GLOBAL", ("m", "C")), sbu("a"), "OBJ", "POP"),
+        S("macro:inst-pop", "MARK", ("INST", ("m", "C")), "POP"),
+        S("macro:newobj-pop", ("GLOBAL", ("m", "D")), "EMPTY_TUPLE", "NEWOBJ", "POP"),
+        S("macro:safe-call-pop", ("GLOBAL", ("collections", "OrderedDict")), "EMPTY_TUPLE", "REDUCE", "POP"),
+        S("macro:eval-pop", ("GLOBAL", ("builtins", "eval")), sbu("1"), "TUPLE1", "REDUCE", "POP"),
+        S("NONE", "NONE"),
+        S("TUPLE2", "TUPLE2"),
+    ]
+
+
 def sigma():
     names = ("NONE K1 STR ELIST EDICT ESET ETUP MARK TUPLE T1 T2 LIST DICT FROZENSET APPEND SETITEM SETITEMS ADDITEMS "
              "POP DUP MEMOIZE BINGET0 REDUCE OBJ NEWOBJ BUILD BINPERSID PROTO2").split()
@@ -168,7 +207,7 @@ class _Cfg:
 def _corpus_one(item):
     tag, data, L = item
     out = e1.Out()
-    term = e1.Term(_Cfg({"seqlen": L}), (tag,), data)
+    term = e1.Term(_Cfg({"seqlen": L, "fine": True}), (tag,), data)
     repeat_oracle(term, out)
     return out
 
@@ -177,8 +216,11 @@ def child_main(depth, path, corpus_path=None):
     """Runs in a process with its own PYTHONHASHSEED: digest table of every terminal program."""
     cfg = e1.Config(PROP, sigma(), depth, [], [digest_oracle], split=1, want_states=False)
     total, _ = e1.run(cfg, None)
-    # outcomes are capped in Out.merge for other checks; here we need all of them
     table = dict(total.table)
+    # long programs with several unused variables / repeated identical calls, via macro symbols
+    cfgm = e1.Config(PROP, macros(), depth + 1, [], [digest_oracle], split=1, want_states=False)
+    totalm, _ = e1.run(cfgm, None)
+    table.update(totalm.table)
     items = [(t, bytes.fromhex(h)) for t, h in json.load(open(corpus_path))] if corpus_path else []
     for tag, data in items:
         o = e1.Out()
@@ -194,7 +236,7 @@ def check(tier):
     rep = Report(PROP, tier)
     depth = 4 if tier == "thorough" else 3
     L = 4 if tier == "thorough" else 3
-    cfg = e1.Config(PROP, sigma(), depth, [], [repeat_oracle], split=1, opts={"seqlen": L})
+    cfg = e1.Config(PROP, sigma(), depth, [], [repeat_oracle], split=1, opts={"seqlen": L - 1, "fine": True})
     e1.run(cfg, rep)
     # deeper programs over a narrow alphabet (non-empty DICT/LIST/FROZENSET need >= 4 symbols), shorter histories
     from .c03 import _fold
@@ -205,6 +247,10 @@ def check(tier):
     cfg2 = e1.Config(PROP, narrow, depth + 1, [], [repeat_oracle], split=2, opts={"seqlen": L - 1})
     e1.run(cfg2, rep2)
     _fold(rep, rep2, "narrow")
+    rep3 = Report(PROP, tier)
+    cfg3 = e1.Config(PROP, macros(), depth, [], [repeat_oracle], split=1, opts={"seqlen": 2})
+    e1.run(cfg3, rep3)
+    _fold(rep, rep3, "macro")
     its = [(t, b, 3) for t, b in corpus_items(tier)]
     total = e1.Out()
     with mp.get_context("fork").Pool(ncpu()) as pool:
